@@ -22,6 +22,7 @@ long g_read_n;               /* what read_func delivers: <0 error, 0 end of inpu
 int g_read_error;            /* error code read_func reports when g_read_n < 0 */
 int g_no_cr;                 /* the delivered units contain no CR (buffer-bookkeeping job) */
 unsigned g_read_calls; UChar *g_read_dest; long g_read_count;
+UChar *g_refill_at;           /* ghost: scan position right after the latest buffer refill */
 
 /* scanner well-formedness as far as the buffer is concerned */
 #define SCANBUF_WF(s) ( (s)->buffer_size >= 1 && (s)->buffer_size <= MAXBUF && (s)->buffer_limit <= (s)->buffer_size \
@@ -65,10 +66,22 @@ __CPROVER_ensures(RET == dest)
 
 static int get_more_chars(struct scanner_s *scanner)
 __CPROVER_requires(__CPROVER_rw_ok(scanner, sizeof(*scanner)) && SCANBUF_WF(scanner) && scanner->read_func == stub_read_func)
+#ifndef VERIF_GMC_AS_CALLEE
 __CPROVER_requires(scanner->buffer_size * 2 <= MAXBUF && g_read_n <= MAXBUF && g_read_error > 0)   /* a character source reports CIF error codes */
 __CPROVER_assigns(scanner->buffer, scanner->buffer_size, scanner->buffer_limit, scanner->next_char, scanner->text_start, scanner->tvalue_start, scanner->at_eof,
                   __CPROVER_object_whole(scanner->buffer), g_read_calls, g_read_dest, g_read_count)
+#else
+/* used as a callee contract by the scanner jobs, with two restrictions that are listed as assumptions in their evidence: the buffer object is not reallocated
+ * (tokens shorter than the buffer: the growth branch is outside those jobs; compaction and appending are inside), and beyond the buffer bound of the enforce job
+ * the contract is assumed.  g_refill_at records where scanning resumes (the content of the units before it is not described by this contract) */
+__CPROVER_requires(g_read_n <= MAXBUF && g_read_error > 0)
+__CPROVER_assigns(scanner->buffer_limit, scanner->next_char, scanner->text_start, scanner->tvalue_start, scanner->at_eof,
+                  __CPROVER_object_whole(scanner->buffer), g_read_calls, g_read_dest, g_read_count, g_refill_at)
+__CPROVER_ensures(g_refill_at == scanner->next_char)
+#endif
+#ifndef VERIF_GMC_AS_CALLEE
 __CPROVER_frees(scanner->buffer)
+#endif
 /* result protocol */
 __CPROVER_ensures(RET == CIF_OK || RET == SPEC_CIF_EOF || RET == CIF_MEMORY_ERROR || (OLD(scanner->at_eof) == 0 && g_read_n < 0 && RET == g_read_error))
 /* whatever happened to the buffer (reset, compaction, growth, plain append), the scanner stays well formed ... */
